@@ -1,13 +1,239 @@
 import NmVerif.Index.Broadcast
+import NmVerif.Index.BroadcastExpr
 /-
   NmVerif.Index.BroadcastKinds — where the CONTAINER KIND of a shape changes what the broadcasting index functions
   return (C06, mixed-kind harness).  The functions of Index/Broadcast.lean are kind-blind (`List Nat` for every
   container); the definitions here mirror the places of the C++ where the result CONTAINER is chosen from the
   operand types and can be too small for the value.
 
+  * `resolveBroadcast` mirrors `meta::resolve_optype<void, index::broadcast_shape_t, A, B>` (broadcast_shape.hpp:307-510):
+    which result container `index::broadcast_shape` gets from the operand TYPES — a constant tuple computed at compile
+    time, a tuple / array of clipped integers with bounds, a fixed array, a bounded vector, a vector — and
+    `RType.store` what happens to the computed extents when they are assigned into it (a clipped integer clamps, a
+    bounded vector ignores a resize beyond its capacity: the NMTOOLS_VERIF hook events 2 and 1).  `BExpr.keval`
+    evaluates a nest of calls under the operand kinds, intermediate results keeping their container.
+    The mixed-kind harness prints `value@container` for every clause (request `k6t`) and the driver answers with this
+    model: the resolver model is under the correspondence run, not only the values.
+  * `sbtNoneClipped`: the None overload of `shape_broadcast_to` with a clipped target (known finding).
+
   Core Lean only (linked into the `driver` executable).
 -/
 namespace NmVerif
+
+/-- what the TYPE of a shape operand tells `meta::resolve_optype<void, index::broadcast_shape_t, A, B>` -/
+structure KInfo where
+  /-- `is_none_v` -/
+  isNone : Bool := false
+  /-- `is_constant_index_array_v`: the values are part of the type -/
+  const : Bool := false
+  /-- `is_clipped_index_array_v`: `to_value_v` = the bounds -/
+  bounds : Option (List Nat) := none
+  /-- `meta::len_v` (0 = the length is not known at compile time) -/
+  lenv : Nat := 0
+  /-- `meta::bounded_size_v` (`none` = a failure type) -/
+  bsize : Option Nat := none
+  deriving DecidableEq, Repr
+
+/-- result container chosen by the resolver -/
+inductive RType where
+  /-- `BROADCAST_SHAPE_ERROR` / `…_UNSUPPORTED`: the call does not compile -/
+  | error
+  | noneT
+  /-- `tuple<ct<v>…>`: the value is computed at compile time -/
+  | constT (vals : Shape)
+  /-- `tuple<clipped_size_t<b>…>` -/
+  | clippedT (bounds : List Nat)
+  /-- `nmtools_array<index_t,n>` (also a 1-d fixed_ndarray passed through by a None operand) -/
+  | arr (n : Nat)
+  /-- `nmtools_array<clipped_integer_t<index_t,0,m>,n>` -/
+  | clippedArr (m n : Nat)
+  /-- `static_vector<index_t,cap>` (also a 1-d hybrid_ndarray passed through) -/
+  | svec (cap : Nat)
+  /-- `nmtools_list<index_t>` -/
+  | list
+  deriving DecidableEq, Repr
+
+/-- a shape operand: what its type says, and its run-time value -/
+structure KShape where
+  info : KInfo
+  vals : Shape
+  deriving DecidableEq, Repr
+
+namespace KInfo
+def none' : KInfo := { isNone := true }
+def ct (n : Nat) : KInfo := { const := true, lenv := n, bsize := some n }
+def cl (bounds : List Nat) : KInfo := { bounds := some bounds, lenv := bounds.length, bsize := some bounds.length }
+def arr (n : Nat) : KInfo := { lenv := n, bsize := some n }
+def sv (cap : Nat) : KInfo := { bsize := some cap }
+def dyn : KInfo := {}
+end KInfo
+
+/-- the type an operand has as a RESULT type (a None operand passes the other operand's type through) -/
+def RType.ofOperand (a : KShape) : RType :=
+  if a.info.isNone then .noneT
+  else if a.info.const then .constT a.vals
+  else match a.info.bounds with
+    | some bs => .clippedT bs
+    | none =>
+      if a.info.lenv > 0 then .arr a.info.lenv
+      else match a.info.bsize with
+        | some c => .svec c
+        | none => .list
+
+/-- what a result type says when it is used as an operand again (the `is_maybe` overloads unwrap it) -/
+def RType.info : RType → KInfo
+  | .error => {}
+  | .noneT => KInfo.none'
+  | .constT v => KInfo.ct v.length
+  | .clippedT bs => KInfo.cl bs
+  | .arr n => KInfo.arr n
+  | .clippedArr m n => KInfo.cl (List.replicate n m)
+  | .svec c => KInfo.sv c
+  | .list => KInfo.dyn
+
+/-- `to_value_v`: the values of a constant shape, the bounds of a clipped one -/
+def KShape.toValue (a : KShape) : Option Shape :=
+  if a.info.const then some a.vals else a.info.bounds
+
+def listMax : List Nat → Nat
+  | [] => 0
+  | x :: xs => max x (listMax xs)
+
+/-- the constant operand `A` (longer or equally long) against a fixed-length run-time operand
+    (broadcast_shape.hpp:373-396): clipped bounds `A_i` as long as every `A_i > 1` -/
+def constVsFixed (A : Shape) (n : Nat) : RType :=
+  if A.all (fun v => decide (1 < v)) then .clippedT A else .arr n
+
+/-- the constant operand `A` against a bounded-length run-time operand (broadcast_shape.hpp:400-443) -/
+def constVsBounded (A : Shape) (dim : Nat) : RType :=
+  if A.any (fun v => v == 1) then .svec dim else .clippedArr (listMax A) A.length
+
+/-- `meta::resolve_optype<void, index::broadcast_shape_t, ashape_t, bshape_t>` (broadcast_shape.hpp:307-510) -/
+def resolveBroadcast (a b : KShape) : RType :=
+  let ai := a.info
+  let bi := b.info
+  if (ai.const || ai.bounds.isSome) && (bi.const || bi.bounds.isSome) then
+    match a.toValue, b.toValue with
+    | some A, some B =>
+      match broadcastShape2 A B with
+      | some R => if ai.const && bi.const then .constT R else .clippedT R
+      | none => if !ai.const || !bi.const then .arr (max ai.lenv bi.lenv) else .error
+    | _, _ => .error
+  else if ai.isNone && bi.const then .constT b.vals
+  else if ai.const && bi.isNone then .constT a.vals
+  else if ai.isNone && bi.isNone then .noneT
+  else if !ai.isNone && !bi.isNone then
+    if ai.lenv > 0 && bi.lenv > 0 then
+      let n := max ai.lenv bi.lenv
+      if ai.const && ai.lenv ≥ bi.lenv then constVsFixed a.vals n
+      else if bi.const && bi.lenv ≥ ai.lenv then constVsFixed b.vals n
+      else .arr n
+    else
+      match (if ai.lenv > 0 then bi.bsize else none), (if bi.lenv > 0 then ai.bsize else none) with
+      | some cb, _ =>
+        let dim := max ai.lenv cb
+        if ai.const && ai.lenv ≥ cb then constVsBounded a.vals dim else .svec dim
+      | none, some ca =>
+        let dim := max bi.lenv ca
+        if bi.const && bi.lenv ≥ ca then constVsBounded b.vals dim else .svec dim
+      | none, none =>
+        match ai.bsize, bi.bsize with
+        | some ca, some cb => .svec (max ca cb)
+        | _, _ => .list
+  else if ai.isNone then RType.ofOperand b
+  else RType.ofOperand a
+
+/-- storing the computed extents `r` into the result container: `(stored value, clamp events, capacity events)` -/
+def RType.store (t : RType) (r : Shape) : Shape × Nat × Nat :=
+  match t with
+  | .clippedT bs => (List.zipWith min r bs, (List.zipWith (fun v b => if v > b then 1 else 0) r bs).sum, 0)
+  | .clippedArr m _ => (r.map (min · m), (r.map (fun v => if v > m then 1 else 0)).sum, 0)
+  | .svec c => if r.length ≤ c then (r, 0, 0) else ([], 0, 1)
+  | _ => (r, 0, 0)
+
+/-- result of one `index::broadcast_shape(a, b)` under the operand kinds -/
+structure KOut where
+  ty : RType
+  /-- `none` = Nothing -/
+  val : Option Shape
+  clamps : Nat := 0
+  overflows : Nat := 0
+  deriving DecidableEq, Repr
+
+/-- the values a result type carries in the type itself -/
+def RType.constVals : RType → Shape
+  | .constT v => v
+  | _ => []
+
+/-- a result type used as operand type again (the `is_maybe` overloads unwrap it) -/
+def RType.asOperand (t : RType) : KShape := { info := t.info, vals := t.constVals }
+
+/-- an operand seen as a (never failing) result -/
+def KShape.out (a : KShape) : KOut := { ty := RType.ofOperand a, val := some a.vals }
+
+/-- `index::broadcast_shape(x, y)` on results of earlier calls (or plain operands): the TYPE is resolved from the
+    operand types alone (`none` = the call does not compile), Nothing is sticky (the `is_maybe` overloads), a
+    constant result is the value computed at compile time, otherwise the loop result is stored into the chosen
+    container. -/
+def kPair (x y : KOut) : Option KOut :=
+  let t := resolveBroadcast x.ty.asOperand y.ty.asOperand
+  let c := x.clamps + y.clamps
+  let o := x.overflows + y.overflows
+  match t with
+  | .error => none
+  | .constT v => some { ty := t, val := some v, clamps := c, overflows := o }
+  | .noneT => some { ty := t, val := some [], clamps := c, overflows := o }
+  | _ =>
+    match x.val, y.val with
+    | some xv, some yv =>
+      match broadcastShape2 xv yv with
+      | none => some { ty := t, val := none, clamps := c, overflows := o }
+      | some r =>
+        let (s, c', o') := t.store r
+        some { ty := t, val := some s, clamps := c + c', overflows := o + o' }
+    | _, _ => some { ty := t, val := none, clamps := c, overflows := o }
+
+/-- one `index::broadcast_shape(a, b)` under the operand kinds -/
+def kBroadcast2 (a b : KShape) : Option KOut := kPair a.out b.out
+
+/-- a nest of calls under the operand kinds (`none` = some call of the nest does not compile) -/
+def BExpr.keval (env : List KShape) : BExpr → Option KOut
+  | .leaf i => (env[i]?).map KShape.out
+  | .pair l r => do
+      let x ← keval env l
+      let y ← keval env r
+      kPair x y
+  | .tri x y z => do
+      let a ← keval env x
+      let b ← keval env y
+      let c ← keval env z
+      let ab ← kPair a b
+      kPair ab c
+
+def RType.tag : RType → String
+  | .error => "err"
+  | .noneT => "none"
+  | .constT _ => "ct"
+  | .clippedT bs => "cl(" ++ ",".intercalate (bs.map toString) ++ ")"
+  | .arr n => s!"a{n}"
+  | .clippedArr m n => "ca(" ++ ",".intercalate ((List.replicate n m).map toString) ++ ")"
+  | .svec c => s!"sv{c}"
+  | .list => "v"
+
+
+/-- operand from the wire: kind name, values, bounds (clipped only) -/
+def KShape.ofKind (kind : String) (vals bounds : List Nat) : Option KShape :=
+  match kind with
+  | "none" => some ⟨KInfo.none', vals⟩
+  | "ct" => some ⟨KInfo.ct vals.length, vals⟩
+  | "cl" => some ⟨KInfo.cl bounds, vals⟩
+  | "a" => some ⟨KInfo.arr vals.length, vals⟩
+  | "f" => some ⟨KInfo.arr vals.length, vals⟩
+  | "v" => some ⟨KInfo.dyn, vals⟩
+  | "sv" => some ⟨KInfo.sv 8, vals⟩
+  | "h" => some ⟨KInfo.sv vals.length, vals⟩
+  | _ => none
+
 
 /-- `impl::shape_broadcast_to(None, bshape)` (broadcast_to.hpp:36-75, the source is the shape of a number) when
     `bshape` is a tuple of clipped integers with bounds `bounds`:
